@@ -95,8 +95,13 @@ fn soft(sig: &str, msg: String) -> FlowFail {
 impl OpenFlow {
     /// handshake + first write + the server's dial
     pub fn open(client_port: u16, hs: Hs, first: u32, tag: u64) -> Result<OpenFlow, FlowFail> {
+        OpenFlow::open_opt(client_port, hs, first, tag, None)
+    }
+
+    /// `open`, optionally with a small receive buffer on the application's socket
+    pub fn open_opt(client_port: u16, hs: Hs, first: u32, tag: u64, rcvbuf: Option<u32>) -> Result<OpenFlow, FlowFail> {
         let listener = Listener::bind();
-        let (mut app, pre) = net::app_connect(client_port, hs, listener.port, Duration::from_secs(15))
+        let (mut app, pre) = net::app_connect_opt(client_port, hs, listener.port, Duration::from_secs(15), rcvbuf)
             .map_err(|e| soft("handshake", format!("local {} handshake failed: {}", hs.name(), e)))?;
         let (tag_a, tag_t) = (tag * 2 + 1, tag * 2 + 2);
         let first = if pre.is_empty() { first.max(1) } else { first } as usize;
@@ -356,7 +361,10 @@ pub fn cold_upload(client_port: u16, hs: Hs, n: u32, tag: u64, delay_ms: u16) ->
 pub fn answer_during_upload(client_port: u16, hs: Hs, n_down: u32, tag: u64) -> Result<(), FlowFail> {
     use std::io::Write;
     use std::sync::atomic::{AtomicBool, Ordering};
-    let fl = OpenFlow::open(client_port, hs, 200, tag)?;
+    // every other answer size goes to an application with a small receive buffer: the relay's writes to the local socket
+    // keep hitting a full buffer, so the answer's last bytes are still being flushed when the upload direction learns that
+    // the link is closed
+    let fl = OpenFlow::open_opt(client_port, hs, 200, tag, if n_down % 2 == 1 { Some(2048) } else { None })?;
     let OpenFlow { app, mut tgt, app_rx, tgt_rx, listener: _listener, tag_a, app_sent, .. } = fl;
     // target content is not verified on this path (the uploader does not track what got through)
     drop(tgt_rx);
